@@ -21,6 +21,7 @@ value(string) field holds its plain variant (else None / the renamed variant); b
 fields leading to level L are Some.
 The generator never computes a name: names, kinds, units, string values come from TLC's lines.
 """
+import re
 import json, os, glob, collections
 
 RA_ATTR = {"pascal": "PascalCase", "snake": "snake_case", "kebab": "kebab-case"}
@@ -43,6 +44,17 @@ def sub(s, j):
     return (s * 1000003 + j + 1) & M64
 
 
+# Concretisation of the exact prefixes: Naming.tla treats an exact prefix as an opaque text that is copied, never
+# inflected. For half of the animals the generated programs spell it with non-ASCII characters (same number of
+# characters, 4 more bytes), in the attribute and hence in every expected name: names then exist whose length is <= 100
+# in characters and > 100 in bytes, on either side of the macro's 100-byte const-string limit (C07-m7).
+_WIDE = re.compile(r"(Ex|ex_)(?=(?:Ant|Cat|Eel|Gnu|Ibis|Kiwi|ant_|cat_|eel_|gnu_|ibis_|kiwi_))|(Cx)(?=:)")
+
+
+def widen(text):
+    return _WIDE.sub(lambda m: "\u8bf7\u6c42" + ("_" if m.group(1) == "ex_" else ""), text)
+
+
 def parse_tlc_output(out):
     """-> (meta, [line dict]) from TLC stdout (PrintT(<<"REPLAY", ToJson(..)>>) lines)."""
     meta = None
@@ -51,7 +63,7 @@ def parse_tlc_output(out):
     pre_m = '<<"META", '
     for l in out.splitlines():
         if l.startswith(pre_r):
-            lines.append(json.loads(json.loads(l[len(pre_r):-2])))
+            lines.append(json.loads(widen(json.loads(l[len(pre_r):-2]))))
         elif l.startswith(pre_m):
             meta = json.loads(json.loads(l[len(pre_m):-2]))
     return meta, lines
@@ -223,7 +235,7 @@ def build_node(model, sel, key, only=None, with_leaves=True):
 # node trees -> Rust
 # ------------------------------------------------------------------------------------------------
 def rs(s):
-    return json.dumps(s)
+    return json.dumps(s, ensure_ascii=False)
 
 
 class Emitter:
@@ -611,6 +623,6 @@ def write_programs(crate_dir, progs, prefix="gen_"):
     for p in progs:
         src = p.source()
         n += src.count("\n")
-        with open(os.path.join(bdir, p.bin + ".rs"), "w") as f:
+        with open(os.path.join(bdir, p.bin + ".rs"), "w", encoding="utf-8") as f:
             f.write(src)
     return n
